@@ -1153,24 +1153,40 @@ func (w *jobWorld) checkState(quiescent bool) {
 				alive++
 			}
 		}
-		// C12: kill liveness.
+		// C12: kill liveness. At rest after the kill time: every live task must at least be
+		// marked for deletion; with nothing alive the Job must be terminal.
 		if ts := rj.Spec.KillTimestamp; ts != nil && !ts.After(now) && started && rj.DeletionTimestamp == nil {
-			stuckOK := w.scn.KubeletDead && (rj.Spec.Template.ForbidTaskForceDeletion || refForceDelete(cfg) <= 0)
-			if !future && !stuckOK {
-				if alive > 0 {
-					w.Violate("C12", "kill-liveness", fmt.Sprintf("kill timestamp passed, system at rest, %d task(s) still alive", alive))
-				} else if fin == nil {
-					w.Violate("C12", "kill-liveness", "kill timestamp passed, no task alive, system at rest, job not terminal (phase "+string(rj.Status.Phase)+")")
-				} else if fin.Result != execution.JobResultKilled && fin.Result != execution.JobResultAdmissionError && !w.finishedBeforeKill(rj) {
-					w.Violate("C12", "kill-result", "job killed but result is "+string(fin.Result), w.features()...)
+			undeleted := 0
+			for _, p := range pods {
+				if !podFinished(p) && p.DeletionTimestamp == nil {
+					undeleted++
 				}
 			}
+			stuckOK := w.scn.KubeletDead && (rj.Spec.Template.ForbidTaskForceDeletion || refForceDelete(cfg) <= 0)
+			switch {
+			case undeleted > 0:
+				w.Violate("C12", "kill-liveness", fmt.Sprintf("kill timestamp passed, system at rest, %d live task(s) not deleted", undeleted), w.features()...)
+			case alive > 0 && !future && !stuckOK && w.scn.KubeletDead:
+				w.Violate("C12", "kill-liveness", fmt.Sprintf("kill timestamp passed, kubelet unresponsive, force deletion allowed, system at rest for good, %d task(s) still alive", alive), w.features()...)
+			case alive == 0 && fin == nil:
+				w.Violate("C12", "kill-liveness", "kill timestamp passed, no task alive, system at rest, job not terminal (phase "+string(rj.Status.Phase)+")", w.features()...)
+			case alive == 0 && fin != nil && fin.Result != execution.JobResultKilled && fin.Result != execution.JobResultAdmissionError && !w.finishedBeforeKill(rj):
+				w.Violate("C12", "kill-result", "job killed but result is "+string(fin.Result), w.features()...)
+			}
 		}
-		// C12: pending liveness.
-		if pt := refPendingTimeout(rj, cfg); pt > 0 && !future {
+		// C12: pending liveness: at rest, a task past its pending deadline must be marked for deletion.
+		if pt := refPendingTimeout(rj, cfg); pt > 0 && rj.DeletionTimestamp == nil {
 			for _, p := range pods {
 				if !podRan(p) && !podFinished(p) && p.DeletionTimestamp == nil && !now.Before(p.CreationTimestamp.Add(pt)) {
 					w.Violate("C12", "pending-liveness", "pod "+p.Name+" exceeded the pending timeout, system at rest, not deleted", w.features()...)
+				}
+			}
+		}
+		// C12: force deletion liveness.
+		if fd := refForceDelete(cfg); fd > 0 && !rj.Spec.Template.ForbidTaskForceDeletion && rj.DeletionTimestamp == nil && started {
+			for _, p := range pods {
+				if p.DeletionTimestamp != nil && !podFinished(p) && !now.Before(p.DeletionTimestamp.Add(fd)) {
+					w.Violate("C12", "force-delete-liveness", "pod "+p.Name+" ignored deletion beyond the force-delete timeout, system at rest, not force-deleted", w.features()...)
 				}
 			}
 		}
@@ -1266,7 +1282,7 @@ func (w *jobWorld) checkState(quiescent bool) {
 		if rj.DeletionTimestamp != nil && len(pods) > 0 && !future && !w.scn.KubeletDead {
 			w.Violate("C13", "deletion-stuck", fmt.Sprintf("job is being deleted, system at rest, %d task(s) still exist", len(pods)))
 		}
-		if fin != nil && rj.DeletionTimestamp == nil && !future {
+		if fin != nil && rj.DeletionTimestamp == nil {
 			if !now.Before(fin.FinishTimestamp.Add(refTTL(rj, cfg))) {
 				w.Violate("C13", "ttl-liveness", "finished job is past its TTL, system at rest, not deleted", w.features()...)
 			}
